@@ -7,6 +7,8 @@ Request kinds
   {"k": "bytes", "b": [byte values]}               Unit(bytes)
   {"k": "arith", "prog": [[op, arg], ...]}         a unit built by unit arithmetic
   {"k": "spell", "v": [text, ...]}                 several spellings of one expression
+  {"k": "history", "calls": [[kind, arg], ...]}    Unit(...) calls on one new registry (s: text, b: bytes, w: text with
+                                                   unit data handed in, c: a registry modification)
 Reply: see `describe`.
 """
 import json
@@ -82,6 +84,10 @@ def unit_kind(u):
         return "offset-dropped-symbol"
     if isinstance(e, sympy.Symbol):
         return "symbol:" + e.name if e.name in LUT else "symbol:prefixed-or-custom"
+    if any(isinstance(p, sympy.Pow) and p.exp.is_Rational and (abs(int(p.exp.p)) > 10**4 or int(p.exp.q) > 10**4) for p in sympy.preorder_traversal(e)):
+        # exponents only unit ARITHMETIC produces (roots of roots, sums of co-prime roots); a class of its own so that
+        # a defect there cannot hide behind (or be hidden by) a finding about ordinary compound units
+        return "long-exponent"
     return "compound"
 
 
@@ -118,8 +124,10 @@ def range_ok(u):
         return False
 
 
-def reparse(u, text):
-    """'same' or a description of how Unit(text) fails to denote `u`"""
+def reparse(u, text, tol=1e-12):
+    """'same' or a description of how Unit(text) fails to denote `u`; `tol`: relative rounding the
+    arithmetic that built `u` may have accumulated in base_value (None: beyond any fixed tolerance,
+    scale and == are then not compared — "up to rounding" cannot be decided)"""
     try:
         v = Unit(text)
     except BaseException as e:  # noqa: BLE001
@@ -129,8 +137,8 @@ def reparse(u, text):
         bad.append("dimensions")
     if not same_float(float(v.base_offset), float(u.base_offset)):
         bad.append("offset")
-    inrange = range_ok(u)
-    if inrange and not same_float(float(v.base_value), float(u.base_value)):
+    inrange = range_ok(u) and tol is not None
+    if inrange and not (same_float(float(v.base_value), float(u.base_value)) or math.isclose(float(v.base_value), float(u.base_value), rel_tol=tol)):
         bad.append("scale")
     if inrange and not math.isnan(u.base_value) and not (v == u):
         bad.append("eq")
@@ -178,7 +186,7 @@ def escape_trigger(s):
     return "other"
 
 
-def describe(u):
+def describe(u, tol=1e-12):
     """everything the parent needs to know about a successfully built unit"""
     d = {"r": "ok", "kind": unit_kind(u), "expr": exact(u.expr), "coeff1": coeff_free(u.expr)}
     try:
@@ -187,8 +195,9 @@ def describe(u):
     except BaseException as e:  # noqa: BLE001
         d["print_exc"] = type(e).__name__
         return d
-    d["rt_str"] = reparse(u, d["str"])
-    d["rt_repr"] = reparse(u, d["repr"])
+    d["rt_str"] = reparse(u, d["str"], tol)
+    d["rt_repr"] = reparse(u, d["repr"], tol)
+    d["tol"] = tol
     d["xs_str"] = expr_same(u, d["str"])
     d["xs_repr"] = expr_same(u, d["repr"])
     return d
@@ -228,17 +237,33 @@ def rat(text):
 
 
 def do_arith(prog):
+    operands = []  # the expression of every unit operand, for the model (c20.arith)
     try:
         u = None
         for op, arg in prog:
             if op == "unit":
                 u = Unit(arg)
+                operands.append(exact(u.expr))
             elif op == "mul":
-                u = u * Unit(arg)
+                v = Unit(arg)
+                operands.append(exact(v.expr))
+                u = u * v
             elif op == "div":
-                u = u / Unit(arg)
+                v = Unit(arg)
+                operands.append(exact(v.expr))
+                u = u / v
             elif op == "rdiv":
-                u = Unit(arg) / u
+                v = Unit(arg)
+                operands.append(exact(v.expr))
+                u = v / u
+            elif op == "mulpow":
+                v = Unit(arg[0])
+                operands.append(exact(v.expr))
+                u = u * v ** rat(arg[1])
+            elif op == "divpow":
+                v = Unit(arg[0])
+                operands.append(exact(v.expr))
+                u = u / v ** rat(arg[1])
             elif op == "powq":
                 u = u ** rat(arg)
             elif op == "powf":
@@ -253,7 +278,82 @@ def do_arith(prog):
                 raise ValueError(op)
     except BaseException as e:  # noqa: BLE001
         return {"r": "arith-raised", "exc": type(e).__name__}
-    return describe(u)
+    # rounding budget of base_value: x**p turns a relative error e into |p|*e (+ one rounding), products add
+    err = 0.0
+    for op, arg in prog:
+        if op in ("powq", "powf", "sqrt"):
+            p = 0.5 if op == "sqrt" else float(rat(arg)) if op == "powq" else float(arg)
+            err = abs(p) * err + 2.3e-16
+        elif op in ("mul", "div", "rdiv", "mulpow", "divpow"):
+            err += 4.6e-16
+    tol = max(1e-12, 16 * err)
+    d = describe(u, tol if tol <= 1e-9 else None)
+    d["operands"] = operands
+    return d
+
+
+def unit_facts(u):
+    return {"expr": exact(u.expr), "sexpr": str(u.expr), "bv": float(u.base_value), "off": float(u.base_offset), "dims": str(u.dimensions)}
+
+
+def do_history(calls):
+    """a history of Unit(...) calls on ONE new registry.  Per call: whether the object came from the
+    registry's cache (identity with the cached object), what it is, and — the direct oracle's
+    reference, no model involved — whether it is what the same call gives on a registry that has
+    never been used."""
+    from unyt import dimensions
+    from unyt.unit_registry import UnitRegistry
+
+    def make(kind, arg, reg):
+        if kind == "w":
+            return Unit(arg, base_value=2.5, dimensions=dimensions.length, registry=reg)
+        return Unit(bytes(arg) if kind == "b" else arg, registry=reg)
+
+    reg = UnitRegistry()
+    out = []
+    nclear = 0
+    for kind, arg in calls:
+        if kind == "c":
+            nclear += 1
+            reg.add(f"c20aux{nclear}", 1.0, dimensions.length)
+            out.append({"o": "C"})
+            continue
+        text = arg
+        if kind == "b":
+            try:
+                text = bytes(arg).decode("utf-8")
+            except UnicodeDecodeError:
+                text = None
+        prev = reg._unit_object_cache.get(text) if text is not None else None
+        try:
+            u = make(kind, arg, reg)
+            d = {"o": "H" if (prev is not None and u is prev) else "B"}
+            d.update(unit_facts(u))
+        except BaseException as e:  # noqa: BLE001
+            u = None
+            d = {"o": "E", "exc": type(e).__name__}
+        try:
+            f = make(kind, arg, UnitRegistry())
+            fd = {"o": "B"}
+            fd.update(unit_facts(f))
+        except BaseException as e:  # noqa: BLE001
+            fd = {"o": "E", "exc": type(e).__name__}
+        bad = []
+        if d["o"] == "E" or fd["o"] == "E":
+            if (d["o"] == "E") != (fd["o"] == "E") or d.get("exc") != fd.get("exc"):
+                bad.append("outcome")
+        else:
+            if d["sexpr"] != fd["sexpr"]:
+                bad.append("expr")
+            if d["dims"] != fd["dims"]:
+                bad.append("dimensions")
+            if not same_float(d["bv"], fd["bv"]):
+                bad.append("scale")
+            if not same_float(d["off"], fd["off"]):
+                bad.append("offset")
+        d["vs_fresh"] = "+".join(bad) if bad else "same"
+        out.append(d)
+    return {"r": "history", "calls": out, "cached": len(reg._unit_object_cache)}
 
 
 def do_spell(variants):
@@ -296,6 +396,8 @@ def main():
                 rep["vocab"] = None
         elif k == "arith":
             rep = do_arith(req["prog"])
+        elif k == "history":
+            rep = do_history(req["calls"])
         elif k == "spell":
             rep = do_spell(req["v"])
         else:
